@@ -217,7 +217,7 @@ def loop_clauses(L, ghost=()):
     return '\n'.join(out)
 
 
-def splice(flat, sig, body, contract, with_fn, with_loops, nloops, extra_ensures=()):
+def splice(flat, sig, body, contract, with_fn, with_loops, nloops, extra_ensures=(), ghost_only=False):
     """returns the C text of one function with its contract spliced in.
     with_fn: attach requires/assigns/ensures; with_loops: attach loop contracts + ghost code."""
     c = contract
@@ -238,7 +238,7 @@ def splice(flat, sig, body, contract, with_fn, with_loops, nloops, extra_ensures
 
         def rep_loop(m):
             n = int(m.group(2))
-            if n in c.loops:
+            if n in c.loops and not ghost_only:
                 gh = c.ghost_loop.get((n, 'begin'), []) + c.ghost_loop.get((n, 'end'), [])
                 return loop_clauses(c.loops[n], gh)
             return m.group(0)
@@ -248,7 +248,7 @@ def splice(flat, sig, body, contract, with_fn, with_loops, nloops, extra_ensures
             kind = 'begin' if m.group(1) == 'LOOPBEGIN' else 'end'
             n = int(m.group(3))
             st = list(c.ghost_loop.get((n, kind), []))
-            if kind == 'begin' and n in c.loops:
+            if kind == 'begin' and n in c.loops and not ghost_only:
                 # anchors: a proven-identity re-assignment of a pointer the loop havocs (keeps CBMC's
                 # points-to sets small); the assertion makes the inserted assignment a no-op
                 for var, ex in c.loops[n].get('anchors', []):
